@@ -69,6 +69,9 @@ def const_value(n, vals):
         return -const_value(n["inner"][0], vals)
     if k == "DeclRefExpr":
         return vals[n["referencedDecl"]["name"]]
+    if k == "BinaryOperator" and n.get("opcode") in ("|", "<<", "+", "&"):
+        a, b = const_value(n["inner"][0], vals), const_value(n["inner"][1], vals)
+        return {"|": a | b, "<<": a << b, "+": a + b, "&": a & b}[n["opcode"]]
     raise Unrecognised("enum initialiser " + k)
 
 
@@ -855,6 +858,180 @@ def regenerate_dispatch(ast=None):
     return {"T4": status, "T6": status}
 
 
+# ------------------------------------------------------------------------------------ T7
+# the field-assignment helpers (`reset_state`, `prepare_search_command`, `start_flush_io_buffer*`,
+# `enable_hold_state`, `prepare_parse_command`, ...) as Lean record updates: Gen/Setters.lean.
+# `Proofs/Setters.lean` proves the model's functions equal to them (ghost events aside).
+
+GEN_SETTERS = os.path.join(lib.LEAN, "CatVerif/Gen/Setters.lean")
+EXPECTED_SETTERS = os.path.join(lib.LEAN, "CatVerif/Gen/Setters.expected.lean")
+
+# C member path -> (model field, kind)
+FIELD = {"state": ("state", "cstate"), "cr_flag": ("crFlag", "bool"), "hold_state_flag": ("holdFlag", "bool"),
+         "hold_exit_status": ("holdExitStatus", "int"), "cmd": ("cmd", "ptr"), "cmd_type": ("cmdType", "ctype"),
+         "index": ("index", "nat"), "length": ("length", "nat"), "partial_cntr": ("partialCntr", "nat"),
+         "position": ("position", "nat"), "write_buf": ("writeSrc", "src"), "write_state": ("writeState", "wstate"),
+         "write_state_after": ("writeStateAfter", "after"), "implicit_write_flag": ("implicitWriteFlag", "bool"),
+         "unsolicited_fsm.state": ("ustate", "ustate"), "unsolicited_fsm.cmd": ("ucmd", "ptr"),
+         "unsolicited_fsm.cmd_type": ("ucmdType", "ctype"), "unsolicited_fsm.position": ("uposition", "nat"),
+         "unsolicited_fsm.write_buf": ("uwriteSrc", "src"), "unsolicited_fsm.write_state": ("uwriteState", "wstate"),
+         "unsolicited_fsm.write_state_after": ("uwriteStateAfter", "after"), "unsolicited_fsm.index": ("uindex", "nat")}
+CTYPE = {"CAT_CMD_TYPE_NONE": ".none", "CAT_CMD_TYPE_RUN": ".run", "CAT_CMD_TYPE_READ": ".read", "CAT_CMD_TYPE_WRITE": ".write",
+         "CAT_CMD_TYPE_TEST": ".test"}
+WSTATE = {"CAT_WRITE_STATE_BEFORE": "0", "CAT_WRITE_STATE_MAIN_BUFFER": "1", "CAT_WRITE_STATE_AFTER": "2"}
+SETTERS = [("reset_state", []), ("unsolicited_reset_state", []), ("prepare_search_command", []), ("enable_hold_state", []),
+           ("start_flush_io_buffer", ["state_after"]), ("start_flush_io_buffer_raw", ["state_after"]),
+           ("unsolicited_start_flush_io_buffer", ["state_after"]), ("prepare_parse_command", [])]
+
+
+def _member_path(n):
+    """self->a.b -> 'a.b' (None if not rooted at the parameter `self`)"""
+    n = strip(n)
+    parts = []
+    while n.get("kind") == "MemberExpr":
+        parts.append(n["name"])
+        n = strip(n["inner"][0])
+    if n.get("kind") == "DeclRefExpr" and n.get("referencedDecl", {}).get("name") == "self":
+        return ".".join(reversed(parts))
+    return None
+
+
+def _is_self_call(n, name):
+    n = strip(n)
+    if n.get("kind") != "CallExpr":
+        return False
+    cal = strip(n["inner"][0])
+    if cal.get("referencedDecl", {}).get("name") != name or len(n["inner"]) != 2:
+        return False
+    a = strip(n["inner"][1])
+    return a.get("kind") == "DeclRefExpr" and a.get("referencedDecl", {}).get("name") == "self"
+
+
+def _rhs(n, kind, params, consts):
+    e = strip(n)
+    k = e.get("kind")
+    ref = e.get("referencedDecl", {}).get("name") if k == "DeclRefExpr" else None
+    if kind == "bool":
+        if k == "IntegerLiteral" and e.get("value") in ("0", "1"):
+            return "true" if e["value"] == "1" else "false"
+        if k == "CXXBoolLiteralExpr":
+            return "true" if e.get("value") else "false"
+    if kind in ("nat", "int") and k == "IntegerLiteral":
+        return e["value"]
+    if kind == "ptr":
+        # NULL: ((void*)0)
+        x = e
+        while x.get("kind") in ("CStyleCastExpr", "ParenExpr", "ImplicitCastExpr") and x.get("inner"):
+            x = x["inner"][0]
+        if x.get("kind") == "IntegerLiteral" and x.get("value") == "0":
+            return "none"
+    if kind == "cstate" and ref in CSTATE:
+        return "." + CSTATE[ref]
+    if kind == "ustate" and ref in USTATE:
+        return "." + USTATE[ref]
+    if kind == "ctype" and ref in CTYPE:
+        return CTYPE[ref]
+    if kind == "wstate" and k == "IntegerLiteral":
+        return e["value"]      # CAT_WRITE_STATE_* are macros: 0 before, 1 main buffer, 2 after
+    if kind == "after" and ref in params:
+        return "a"
+    if kind == "src" and _is_self_call(e, "get_new_line_chars"):
+        return ".nl (nlOff s)"
+    if kind == "src" and _is_self_call(e, "get_atcmd_buf"):
+        return ".main"
+    raise Unrecognised("T7: unrecognised right-hand side for a %s field" % kind)
+
+
+def _setter_stmts(sts, params, consts, ind):
+    out = []
+    for st in sts:
+        if is_noise(st):
+            continue
+        k = st.get("kind")
+        e = strip(st)
+        if k == "DeclStmt":
+            # a local constant: uint8_t val = <constant expression>;
+            for d in st.get("inner", []):
+                if d.get("kind") != "VarDecl" or not d.get("inner"):
+                    raise Unrecognised("T7: unrecognised declaration")
+                v = const_value(strip(d["inner"][-1]), consts)
+                if v is None:
+                    raise Unrecognised("T7: local %s is not a constant" % d.get("name"))
+                consts[d["name"]] = v
+            continue
+        if e.get("kind") == "BinaryOperator" and e.get("opcode") == "=":
+            path = _member_path(e["inner"][0])
+            if path not in FIELD:
+                raise Unrecognised("T7: assignment to unknown field %s" % path)
+            f, kind = FIELD[path]
+            out.append("%slet s : St := { s with %s := %s }" % (ind, f, _rhs(e["inner"][1], kind, params, consts)))
+            continue
+        if e.get("kind") == "CallExpr" and strip(e["inner"][0]).get("referencedDecl", {}).get("name") == "memset":
+            dst, val, num = e["inner"][1], e["inner"][2], e["inner"][3]
+            x = strip(dst)
+            while x.get("kind") in ("CStyleCastExpr", "ImplicitCastExpr", "ParenExpr") and x.get("inner"):
+                x = x["inner"][0]
+            if not (_is_self_call(x, "get_atcmd_buf") and _is_self_call(num, "get_atcmd_buf_size")):
+                raise Unrecognised("T7: memset of something other than the whole command buffer")
+            v = const_value(strip(val), consts)
+            if v is None:
+                raise Unrecognised("T7: memset value is not a constant")
+            out.append("%slet s : St := writeB D s .cmd 0 (List.replicate D.cmdCap %d)" % (ind, v % 256))
+            continue
+        if k == "IfStmt":
+            c = strip(st["inner"][0])
+            if not (c.get("kind") == "BinaryOperator" and c.get("opcode") == "=="):
+                raise Unrecognised("T7: unrecognised condition")
+            path = _member_path(c["inner"][0])
+            if path not in FIELD or FIELD[path][1] != "bool":
+                raise Unrecognised("T7: condition on a non-flag")
+            rhs = _rhs(c["inner"][1], "bool", params, consts)
+            th = st["inner"][1].get("inner", []) if st["inner"][1].get("kind") == "CompoundStmt" else [st["inner"][1]]
+            el = []
+            if len(st["inner"]) > 2:
+                el = st["inner"][2].get("inner", []) if st["inner"][2].get("kind") == "CompoundStmt" else [st["inner"][2]]
+            a = _setter_stmts(th, params, consts, ind + "    ")
+            b = _setter_stmts(el, params, consts, ind + "    ")
+            out.append("%slet s : St := if s.%s == %s then (\n%s\n%s    s) else (\n%s\n%s    s)"
+                       % (ind, FIELD[path][0], rhs, "\n".join(a) if a else ind + "    let s : St := s", ind,
+                          "\n".join(b) if b else ind + "    let s : St := s", ind))
+            continue
+        raise Unrecognised("T7: unrecognised statement (%s)" % k)
+    return out
+
+
+def t7(ast):
+    _, ev = enums(ast)
+    defs = []
+    for name, params in SETTERS:
+        _, body = find_fn(ast, name)
+        consts = dict(ev)
+        lines = _setter_stmts(body.get("inner", []), params, consts, "  ")
+        sig = "def %s (D : Desc) (s : St)%s : St :=" % (name, " (a : After)" if params else "")
+        defs.append("/-- `%s` of src/cat.c -/\n%s\n%s\n  s" % (name, sig, "\n".join(lines)))
+    hdr = ("/-\n  GENERATED by tools/translate.py from the field-assignment helpers of src/cat.c (T7). Do not edit.\n"
+           "  `Proofs/Setters.lean` proves the model's functions equal to these.\n-/\n"
+           "import CatVerif.Model.Fsm\nnamespace Cat.Gen\nopen Cat St\nset_option linter.unusedVariables false\n\n")
+    return hdr + "\n\n".join(defs) + "\n\nend Cat.Gen\n"
+
+
+def regenerate_setters(ast=None):
+    try:
+        txt = t7(ast or load_ast())
+        status = "translated"
+    except Exception as ex:
+        if not os.path.exists(EXPECTED_SETTERS):
+            return {"T7": "failed: " + repr(ex)[:200]}
+        txt = open(EXPECTED_SETTERS).read()
+        status = "fallback to expected text: " + repr(ex)[:200]
+    with lib.Lock("gen"):
+        old = open(GEN_SETTERS).read() if os.path.exists(GEN_SETTERS) else ""
+        if old != txt:
+            with open(GEN_SETTERS, "w") as f:
+                f.write(txt)
+    return {"T7": status}
+
+
 def expected_defs():
     """name -> definition text from the committed expected copy (for fallbacks)"""
     txt = open(EXPECTED).read()
@@ -914,6 +1091,7 @@ def regenerate():
                 f.write(txt)
     exp = open(EXPECTED).read() if os.path.exists(EXPECTED) else ""
     rep.update(regenerate_dispatch())
+    rep.update(regenerate_setters())
     fall = {k: v for k, v in rep.items() if not v.startswith("translated")}
     return {"status": "ok", "changed_vs_expected": txt != exp, "fallbacks": fall, "items": len(rep),
             "sha": hashlib.sha256(txt.encode()).hexdigest()[:12]}
